@@ -1,12 +1,440 @@
-//! C13 - (to be written)
+//! C13 - the compiled decision diagrams compute the u32 word functions (engine E5 + E1).
+//!
+//! Families
+//! * `symbolic`      - per circuit: structural invariants of every output-bit table, then level-by-level symbolic
+//!   evaluation into ROBDDs and comparison by canonical node identity with the bit-blasted specification
+//!   (= equality on all 2^64 input pairs). A counterexample is extracted from the XOR of the two diagrams and
+//!   re-validated on the plain interpreter and the Rust u32 operator.
+//! * `explicit`      - cross-validation of the ROBDD engine: for every output bit whose support is small, all
+//!   assignments of the support (x two backgrounds for the other inputs) through the plain interpreter, the
+//!   ROBDD evaluation and the u32 operator.
+//! * `mutants`       - detection self-test: hi/lo swapped in one Cmux of an in-memory copy of a table; the symbolic
+//!   check must report every non-equivalent mutant and its counterexample must be real.
+//! * `bind-*`        - the real evaluator at the parameters of the library's own test-suite (see c13_bind.rs).
 
-use pvc_engine::Run;
-use serde_json::Value;
+use crate::c13_bind;
+use poulpy_bin_fhe::bdd_arithmetic::Node;
+use poulpy_bin_fhe::verif_hooks::u32_circuits;
+use pvc_engine::{Rec, Run, Tier, fnv};
+use pvc_model::bdd::{
+    ALL_WORD_OPS, Bdd, CNode, FALSE, Robdd, WordOp, check_structure, interpret_u64, spec_bits, symbolic, word_op,
+};
+use serde::{Deserialize, Serialize};
+use serde_json::{Value, json};
 
-pub fn run(_run: &mut Run) {
-    panic!("C13: not implemented yet");
+/// One compiled circuit, copied out of the crate through hook H1.
+#[derive(Clone)]
+pub struct Table {
+    pub op: WordOp,
+    pub input_size: usize,
+    pub output_size: usize,
+    pub max_state_size: usize,
+    /// per output bit: (nodes, declared state width)
+    pub bits: Vec<(Vec<CNode>, usize)>,
 }
 
-pub fn replay(_run: &mut Run, _d: &Value) {
-    panic!("C13: not implemented yet");
+pub fn load_tables() -> Vec<Table> {
+    u32_circuits()
+        .into_iter()
+        .map(|(name, c)| {
+            let op = WordOp::from_name(name).unwrap_or_else(|| panic!("hook returned an unknown circuit name {name}"));
+            let bits = (0..c.output_size())
+                .map(|i| {
+                    let (nodes, w) = c.get_circuit(i);
+                    let v = nodes
+                        .iter()
+                        .map(|n| match n {
+                            Node::Cmux(s, h, l) => CNode::Cmux(*s, *h, *l),
+                            Node::Copy => CNode::Copy,
+                            Node::None => CNode::None,
+                        })
+                        .collect();
+                    (v, w)
+                })
+                .collect();
+            Table {
+                op,
+                input_size: c.input_size(),
+                output_size: c.output_size(),
+                max_state_size: c.max_state_size(),
+                bits,
+            }
+        })
+        .collect()
 }
+
+/// `VERIF_C13_MUTATE=circuit:bit:node` swaps hi/lo of that Cmux in the harness's copy of the table (demonstration
+/// of detection; never touches /repo).
+fn apply_env_mutation(tables: &mut [Table]) -> Option<String> {
+    let spec = std::env::var("VERIF_C13_MUTATE").ok()?;
+    let p: Vec<&str> = spec.split(':').collect();
+    assert_eq!(p.len(), 3, "VERIF_C13_MUTATE=circuit:bit:node");
+    let t = tables.iter_mut().find(|t| t.op.name() == p[0]).expect("circuit name");
+    let bit: usize = p[1].parse().unwrap();
+    let node: usize = p[2].parse().unwrap();
+    match &mut t.bits[bit].0[node] {
+        CNode::Cmux(_, h, l) => std::mem::swap(h, l),
+        o => {
+            eprintln!("VERIF_C13_MUTATE: node {node} of {}[{bit}] is {o:?}, not a Cmux", p[0]);
+            std::process::exit(2);
+        }
+    }
+    Some(spec)
+}
+
+#[derive(Clone, Debug, Serialize, Deserialize)]
+pub struct SymCase {
+    pub circuit: String,
+}
+
+fn input_word(op: WordOp, a: u32, b: u32) -> u64 {
+    if op.input_bits() == 32 { a as u64 } else { (a as u64) | ((b as u64) << 32) }
+}
+
+/// Decides one output bit symbolically. Returns the circuit's ROBDD (None on structural failure).
+#[allow(clippy::too_many_arguments)]
+fn decide_bit(
+    m: &mut Robdd,
+    spec: &[Bdd],
+    t: &Table,
+    bit: usize,
+    case: &Value,
+    family: &str,
+    rec: &mut Rec,
+    report: bool,
+) -> (Option<Bdd>, Option<Value>) {
+    let (nodes, width) = (&t.bits[bit].0, t.bits[bit].1);
+    let base = |kind: &str| json!({"op": t.op.name(), "backend": "symbolic", "kind": kind, "case": case, "inner": {"bit": bit}, "family": family});
+    match check_structure(nodes, width, t.input_size) {
+        Err(s) => {
+            let mut d = base(&format!("structural:{}", s.kind));
+            d["level"] = json!(s.level);
+            d["slot"] = json!(s.slot);
+            d["detail"] = json!(s.detail);
+            if report {
+                rec.fail(d.clone());
+            }
+            return (None, Some(d));
+        }
+        Ok(shape) => {
+            rec.add("cmux_nodes", shape.cmux as u64);
+            rec.add("levels", shape.levels as u64);
+        }
+    }
+    if width > t.max_state_size {
+        let mut d = base("structural:max_state_size_too_small");
+        d["detail"] = json!(format!("bit width {} > circuit max_state_size {}", width, t.max_state_size));
+        if report {
+            rec.fail(d.clone());
+        }
+        return (None, Some(d));
+    }
+    let f = symbolic(m, nodes, width, &|i| i);
+    let want = spec.get(bit).copied().unwrap_or(FALSE);
+    if f == want {
+        return (Some(f), None);
+    }
+    // counterexample from the difference
+    let diff = m.xor(f, want);
+    let asg = m.any_sat(diff).expect("distinct canonical nodes must differ somewhere");
+    let mut x = 0u64;
+    for (v, &bv) in asg.iter().enumerate() {
+        if bv {
+            x |= 1 << v;
+        }
+    }
+    let (a, b) = (x as u32, (x >> 32) as u32);
+    let mut buf = vec![];
+    let got = interpret_u64(nodes, width, input_word(t.op, a, b), &mut buf);
+    let wanted = (word_op(t.op, a, b) >> bit) & 1 == 1;
+    let mut d = base("wrong_function");
+    d["a"] = json!(a);
+    d["b"] = json!(b);
+    d["interpreter_bit"] = json!(got);
+    d["u32_operator_bit"] = json!(wanted);
+    d["differing_assignments"] = json!(m.sat_count(diff).to_string());
+    d["counterexample_confirmed"] = json!(got != wanted);
+    if report {
+        rec.fail(d.clone());
+    }
+    (Some(f), Some(d))
+}
+
+fn exec_symbolic(t: &Table, case: &SymCase, rec: &mut Rec) {
+    let cj = serde_json::to_value(case).unwrap();
+    let op = t.op;
+    let meta = |kind: &str, detail: String| json!({"op": op.name(), "backend": "symbolic", "kind": kind, "case": cj, "inner": {}, "detail": detail});
+    // the declared input size may be smaller than the bits supplied (the shifts declare 37: a and the five
+    // shift-amount bits); it must not exceed them, and every selector is checked against it below
+    if t.input_size > op.input_bits() {
+        rec.fail(meta("structural:input_size", format!("input_size {} > {} bits supplied", t.input_size, op.input_bits())));
+    }
+    rec.add(&format!("declared_input_size_{}", op.name()), t.input_size as u64);
+    if t.output_size != op.output_bits() {
+        rec.fail(meta("structural:output_size", format!("output_size {} != {}", t.output_size, op.output_bits())));
+    }
+    let mut m = Robdd::new(&op.order());
+    let spec = spec_bits(&mut m, op);
+    let spec_nodes = m.nodes_created();
+    let spec_steps = m.ite_steps;
+    for bit in 0..t.bits.len() {
+        let (f, _) = decide_bit(&mut m, &spec, t, bit, &cj, "symbolic", rec, true);
+        rec.evals(1);
+        if let Some(f) = f {
+            rec.distinct(fnv(format!("{}:{}", op.name(), bit).as_bytes()));
+            rec.outcome(fnv(format!("{}:{}:{}", op.name(), m.size(f), m.support(f).len()).as_bytes()));
+        }
+    }
+    rec.add("robdd_nodes", m.nodes_created());
+    rec.add("ite_steps", m.ite_steps);
+    rec.add("spec_robdd_nodes", spec_nodes);
+    rec.add("spec_ite_steps", spec_steps);
+    rec.add("output_bits", t.bits.len() as u64);
+    rec.sample(|| json!({"circuit": op.name(), "bits": t.bits.len(), "robdd_nodes": m.nodes_created(), "ite_steps": m.ite_steps}));
+}
+
+// ---------------------------------------------------------------------------------------------------------------
+// explicit cross-validation
+// ---------------------------------------------------------------------------------------------------------------
+
+#[derive(Clone, Debug, Serialize, Deserialize)]
+pub struct ExplicitCase {
+    pub circuit: String,
+    pub bit: usize,
+    pub support: Vec<usize>,
+}
+
+fn exec_explicit(t: &Table, c: &ExplicitCase, rec: &mut Rec) {
+    let op = t.op;
+    let (nodes, width) = (&t.bits[c.bit].0, t.bits[c.bit].1);
+    let mut m = Robdd::new(&op.order());
+    let f = symbolic(&mut m, nodes, width, &|i| i);
+    let sup = &c.support;
+    let k = sup.len();
+    let in_mask: u64 = if op.input_bits() == 64 { u64::MAX } else { u32::MAX as u64 };
+    let sup_mask: u64 = sup.iter().fold(0u64, |acc, &v| acc | (1 << v));
+    // backgrounds for the inputs outside the support: all zero, all one, and a fixed mixed pattern
+    let backgrounds = [0u64, u64::MAX, 0xA5A5_5A5A_C3C3_3C3Cu64];
+    let mut buf = vec![];
+    let mut ones = 0u64;
+    for (bi, bg) in backgrounds.iter().enumerate() {
+        for asg in 0u64..(1u64 << k) {
+            let mut x = bg & !sup_mask & in_mask;
+            for (j, &v) in sup.iter().enumerate() {
+                x |= ((asg >> j) & 1) << v;
+            }
+            let (a, b) = (x as u32, (x >> 32) as u32);
+            let interp = interpret_u64(nodes, width, x, &mut buf);
+            let want = (word_op(op, a, b) >> c.bit) & 1 == 1;
+            let sym = m.eval(f, &|v| (x >> v) & 1 == 1);
+            ones += interp as u64;
+            if interp != want || sym != want {
+                rec.fail(json!({"op": op.name(), "backend": "interpreter", "kind": if interp != want {"wrong_value"} else {"engine_disagreement"},
+                    "case": c, "inner": {"a": a, "b": b, "background": bi}, "interpreter_bit": interp, "robdd_bit": sym, "u32_operator_bit": want}));
+                return;
+            }
+        }
+        rec.evals(1u64 << k);
+    }
+    rec.distinct(fnv(format!("{}:{}", op.name(), c.bit).as_bytes()));
+    rec.outcome(fnv(format!("{}:{}:{}", op.name(), c.bit, ones).as_bytes()));
+    rec.sample(|| json!({"circuit": op.name(), "bit": c.bit, "support_size": k, "assignments": 3u64 << k}));
+}
+
+// ---------------------------------------------------------------------------------------------------------------
+// mutants
+// ---------------------------------------------------------------------------------------------------------------
+
+#[derive(Clone, Debug, Serialize, Deserialize)]
+pub struct MutCase {
+    pub circuit: String,
+    pub bit: usize,
+}
+
+fn exec_mutants(t: &Table, c: &MutCase, stride: usize, rec: &mut Rec) {
+    let op = t.op;
+    let cj = serde_json::to_value(c).unwrap();
+    let mut m = Robdd::new(&op.order());
+    let spec = spec_bits(&mut m, op);
+    let n = t.bits[c.bit].0.len();
+    for idx in (0..n).filter(|i| i % stride == (c.bit % stride)) {
+        let CNode::Cmux(s, h, l) = t.bits[c.bit].0[idx] else { continue };
+        if h == l {
+            rec.add("mutants_trivial_hi_eq_lo", 1);
+            continue;
+        }
+        let mut mt = t.clone();
+        mt.bits[c.bit].0[idx] = CNode::Cmux(s, l, h);
+        let mut scratch = Rec::new();
+        let (_, verdict) = decide_bit(&mut m, &spec, &mt, c.bit, &cj, "mutants", &mut scratch, false);
+        rec.evals(1);
+        match verdict {
+            None => {
+                // the swap did not change the function (both operands hold the same function on the reachable part)
+                rec.add("mutants_equivalent", 1);
+            }
+            Some(d) => {
+                let kind = d["kind"].as_str().unwrap_or("").to_string();
+                if kind == "wrong_function" {
+                    if d["counterexample_confirmed"] == json!(true) {
+                        rec.add("mutants_detected", 1);
+                        rec.distinct(fnv(format!("{}:{}:{}", op.name(), c.bit, idx).as_bytes()));
+                        rec.outcome(fnv(d["differing_assignments"].as_str().unwrap_or("").as_bytes()));
+                        rec.sample(|| json!({"circuit": op.name(), "bit": c.bit, "node": idx, "swapped": format!("Cmux({s},{h},{l}) -> Cmux({s},{l},{h})"),
+                            "counterexample": {"a": d["a"], "b": d["b"]}, "differing_assignments": d["differing_assignments"]}));
+                    } else {
+                        rec.fail(json!({"op": op.name(), "backend": "symbolic", "kind": "selftest_counterexample_not_real", "case": c, "inner": {"node": idx}, "report": d}));
+                    }
+                } else {
+                    // structural report (a swap cannot create one: same operands are read)
+                    rec.fail(json!({"op": op.name(), "backend": "symbolic", "kind": "selftest_unexpected_structural", "case": c, "inner": {"node": idx}, "report": d}));
+                }
+            }
+        }
+    }
+}
+
+// ---------------------------------------------------------------------------------------------------------------
+
+fn table_of<'a>(tables: &'a [Table], name: &str) -> &'a Table {
+    tables.iter().find(|t| t.op.name() == name).unwrap_or_else(|| panic!("no circuit {name}"))
+}
+
+fn explicit_cases(tables: &[Table], limit: usize) -> (Vec<ExplicitCase>, Vec<Value>) {
+    let mut out = vec![];
+    let mut skipped = vec![];
+    for t in tables {
+        let mut m = Robdd::new(&t.op.order());
+        for bit in 0..t.bits.len() {
+            let (nodes, width) = (&t.bits[bit].0, t.bits[bit].1);
+            if check_structure(nodes, width, t.input_size).is_err() {
+                continue;
+            }
+            let f = symbolic(&mut m, nodes, width, &|i| i);
+            let sup = m.support(f);
+            if sup.len() <= limit {
+                out.push(ExplicitCase {
+                    circuit: t.op.name().into(),
+                    bit,
+                    support: sup,
+                });
+            } else {
+                skipped.push(json!({"circuit": t.op.name(), "bit": bit, "support": sup.len()}));
+            }
+        }
+    }
+    out.sort_by_key(|c| c.support.len());
+    (out, skipped)
+}
+
+pub fn run(run: &mut Run) {
+    let mut tables = load_tables();
+    let mutated = apply_env_mutation(&mut tables);
+    if let Some(s) = &mutated {
+        run.note("DEMONSTRATION_mutated_table", json!(s));
+        eprintln!("[C13] VERIF_C13_MUTATE={s}: hi/lo swapped in the harness's copy of that node");
+    }
+    run.assume("circuit tables are read through verif_hooks::u32_circuits(), which returns references to the same statics the word operations use (22-line accessor, by inspection); the bind families additionally run the public word operations");
+    run.assume("input numbering: input i < 32 is bit i of a, input 32+i is bit i of b (FheUintHelper::get_bit); identity reads one word; bound to the code by the bind families");
+    run.assume("RISC-V word semantics: add/sub wrapping, shift amount = b & 31, sra arithmetic, slt signed / sltu unsigned with a single output bit (the evaluator zeroes the other 31), bitwise and/or/xor, identity");
+    run.assume("definedness rule: slots 0 and 1 are defined initially (constants 0 and 1), a level defines exactly the slots it writes (Cmux/Copy), a None slot is undefined afterwards although the evaluator's buffer still holds the value of two levels earlier; the symbolic run nevertheless follows the evaluator's real two-buffer semantics");
+    // checks of the circuit set itself
+    run.single("circuit-set", "the hook returns exactly the 11 u32 circuits, each once", |rec| {
+        rec.evals(1);
+        let names: Vec<&str> = tables.iter().map(|t| t.op.name()).collect();
+        let mut sorted = names.clone();
+        sorted.sort();
+        sorted.dedup();
+        if tables.len() != ALL_WORD_OPS.len() || sorted.len() != ALL_WORD_OPS.len() {
+            rec.fail(json!({"op": "u32_circuits", "backend": "symbolic", "kind": "structural:circuit_set", "case": {}, "inner": {}, "names": names}));
+        }
+    });
+
+    // ---- symbolic ----
+    let cases: Vec<SymCase> = tables.iter().map(|t| SymCase { circuit: t.op.name().into() }).collect();
+    run.family(
+        "symbolic",
+        "outer = circuit; inner = every output bit: structural invariants, then ROBDD of the table (evaluator semantics, 64 variables) == ROBDD of the bit-blasted word operation by canonical node identity, i.e. on all 2^64 input pairs; distinct = output bits decided; outcomes = (ROBDD size, support size) classes",
+        cases,
+        |c, rec| exec_symbolic(table_of(&tables, &c.circuit), c, rec),
+    );
+    if let Some(f) = run.families.iter().find(|f| f.name == "symbolic") {
+        let g = |k: &str| f.rec.extra.get(k).copied().unwrap_or(0);
+        run.states += g("robdd_nodes");
+        run.transitions += g("ite_steps");
+        let note = json!({"robdd_nodes_created": g("robdd_nodes"), "ite_steps": g("ite_steps"), "of_which_specification_nodes": g("spec_robdd_nodes"),
+            "of_which_specification_ite_steps": g("spec_ite_steps"), "output_bits_decided": g("output_bits"), "cmux_nodes_in_tables": g("cmux_nodes"), "levels_in_tables": g("levels"),
+            "input_pairs_covered_per_bit": "2^64 (2^32 for identity)"});
+        run.note("symbolic", note);
+    }
+
+    // ---- explicit ----
+    let limit = std::env::var("VERIF_C13_SUPPORT").ok().and_then(|s| s.parse().ok()).unwrap_or(run.tier.pick(20, 24));
+    if run.wants("explicit") {
+        let (cases, skipped) = explicit_cases(&tables, limit);
+        run.note(
+            "explicit",
+            json!({"support_limit": limit, "bits_enumerated": cases.len(), "bits_beyond_limit": skipped.len(), "backgrounds_for_non_support_inputs": 3}),
+        );
+        run.family(
+            "explicit",
+            "outer = (circuit, output bit) with ROBDD support <= limit; inner = every assignment of the support x 3 backgrounds of the other inputs; plain interpreter == ROBDD evaluation == Rust u32 operator",
+            cases,
+            |c, rec| exec_explicit(table_of(&tables, &c.circuit), c, rec),
+        );
+    }
+
+    // ---- mutants (pristine tables: the demonstration mutation is not part of the self-test) ----
+    if run.wants("mutants") {
+        let pristine = load_tables();
+        let stride = 1;
+        let mut cases = vec![];
+        for t in &pristine {
+            for bit in 0..t.bits.len() {
+                cases.push(MutCase {
+                    circuit: t.op.name().into(),
+                    bit,
+                });
+            }
+        }
+        run.family(
+            "mutants",
+            "detection self-test: outer = (circuit, output bit); inner = every Cmux node with hi/lo swapped in an in-memory copy; the symbolic check must report the mutant unless the swap is function-preserving (canonical equality), and the extracted counterexample must be confirmed by interpreter vs u32 operator",
+            cases,
+            |c, rec| exec_mutants(table_of(&pristine, &c.circuit), c, stride, rec),
+        );
+        if let Some(f) = run.families.iter().find(|f| f.name == "mutants") {
+            let g = |k: &str| f.rec.extra.get(k).copied().unwrap_or(0);
+            run.note(
+                "mutants",
+                json!({"tried": f.rec.evaluations, "detected_with_confirmed_counterexample": g("mutants_detected"), "function_preserving": g("mutants_equivalent"), "trivial_hi_eq_lo": g("mutants_trivial_hi_eq_lo")}),
+            );
+        }
+    }
+
+    // ---- binding to the implementation ----
+    c13_bind::run(run, &tables);
+}
+
+pub fn replay(run: &mut Run, d: &Value) {
+    let fam = d["family"].as_str().unwrap_or("").to_string();
+    let mut tables = load_tables();
+    apply_env_mutation(&mut tables);
+    if fam == "symbolic" {
+        let c: SymCase = serde_json::from_value(d["case"].clone()).expect("case");
+        run.single("symbolic", "replay", |rec| exec_symbolic(table_of(&tables, &c.circuit), &c, rec));
+    } else if fam == "explicit" {
+        let c: ExplicitCase = serde_json::from_value(d["case"].clone()).expect("case");
+        run.single("explicit", "replay", |rec| exec_explicit(table_of(&tables, &c.circuit), &c, rec));
+    } else if fam == "mutants" {
+        let c: MutCase = serde_json::from_value(d["case"].clone()).expect("case");
+        run.single("mutants", "replay", |rec| exec_mutants(table_of(&tables, &c.circuit), &c, 1, rec));
+    } else if fam.starts_with("bind") {
+        c13_bind::replay(run, &tables, d);
+    } else {
+        panic!("C13 replay: unknown family {fam}");
+    }
+}
+
+#[allow(dead_code)]
+fn _tier(_: Tier) {}
